@@ -146,11 +146,15 @@ def spec_key(call: dict) -> str:
     c = {k: v for k, v in call.items() if k not in ("slot", "keep", "tag")}
     if c["kind"] == "convert_again":
         c = {"kind": "decompile", "rs": call["rs"]}
-    return json.dumps(c, sort_keys=True)
+    return json.dumps(c, sort_keys=False)
 
 
 def alone(call: dict) -> dict:
-    return json.loads(spec_key(call))
+    """the call as run for its reference (dict orders kept: the order of a language string's entries is part of the input)"""
+    c = {k: copy.deepcopy(v) for k, v in call.items() if k not in ("slot", "keep", "tag")}
+    if c["kind"] == "convert_again":
+        c = {"kind": "decompile", "rs": copy.deepcopy(call["rs"])}
+    return c
 
 
 class Pools:
@@ -374,9 +378,11 @@ def diagnose(calls: list[dict], ref: dict) -> tuple[str, str, dict]:
                 "ATN/DFA (decisionsToDFA, and the nextTokenWithinRule sets the runtime caches on the shared ATN states) make the ANTLR error strategy take another " \
                 "recovery path; the difference vanishes when these caches are re-created before the call", detail
     if kind_l == "compile":
-        if fd == ["macro_order"] and last.get("slot") and "is-ssb-script" in last["text"][:40]:
-            return "macro_resolution_order_kept_for_ssbscript_source", \
-                "compile() of a source marked is-ssb-script on a reused compiler object leaves macro_resolution_order of the previous file " \
+        if fd == ["macro_order"] and last.get("slot"):
+            how = "a source marked is-ssb-script" if "is-ssb-script" in last["text"][:40] else \
+                (f"a source whose compilation raises {got['full'].get('error')} before the order is computed" if got["full"].get("error") else "a source")
+            return "macro_resolution_order_not_reset_on_reused_compiler", \
+                f"compile() of {how} on a reused compiler object leaves macro_resolution_order of the previous file " \
                 f"({detail['after_history']['macro_order']} instead of {detail['alone']['macro_order']}): the attribute is not among those reset at the top of compile()", detail
         if last.get("slot"):
             return "reused_compiler_result_differs", f"compile() on a reused compiler object differs from a fresh object in {'/'.join(fd)}", detail
@@ -482,6 +488,7 @@ def run(run: core.Run) -> int:
     n_calls = Counter()
     outcome = Counter()
     found: dict[str, dict] = {}
+    buckets: Counter = Counter()
     input_changed = 0
     indent_changes = 0
     reuse_signs = 0
@@ -514,8 +521,13 @@ def run(run: core.Run) -> int:
             stats["calls_compared"] += 1
             if row["digest"] != ref["digest"]:
                 stats["differences"] += 1
-                sig = c["kind"] + "|" + ("slot" if c.get("slot") else "") + "|" + spec_key(c)[:2000]
-                if sig not in found and len(found) < (6 if quick else 14) and not s["instrument"]:
+                # one bucket per shape of difference (kind of call, reused object?, how the two outcomes look); two
+                # representatives of every bucket are shrunk and diagnosed, so that a rare kind is not hidden behind a frequent one
+                shape = (c["kind"], bool(c.get("slot")), ref["summary"].get("error"), row["summary"].get("error"), ref["summary"].get("fallback"), row["summary"].get("fallback"),
+                         "is-ssb-script" in (c.get("text") or "")[:40])
+                buckets[shape] += 1
+                sig = json.dumps(shape) + "|" + str(min(buckets[shape], 2))
+                if sig not in found and len(found) < (12 if quick else 40) and not s["instrument"]:
                     found[sig] = {"calls": s["calls"][: i + 1], "ref": ref, "session": s["name"]}
     # shrink + diagnose + report
     for sig, f in found.items():
@@ -590,6 +602,7 @@ def run(run: core.Run) -> int:
                 "one compiler object reused, convert() repeated); evaluations = observed calls compared with their fresh-process reference; non-trivial = distinct call inputs",
         "samples": sample_hist, "histories": len(hists), "sessions": len(sessions), "instrumented_sessions": len(instr_sessions),
         "calls_by_kind": dict(n_calls), "outcomes": dict(outcome), "stats": dict(stats),
+        "difference_shapes": {json.dumps(k): v for k, v in buckets.items()},
         "pool_sizes": {k: len(getattr(pools, k)) for k in ("texts", "bad_texts", "rs", "rs_abort", "rs_switch", "rs_broken", "cli", "cd")},
         "indent_attributes_changed_by_convert": indent_changes, "caller_ops_changed_in_meaning": input_changed,
         "memo_tables_reclaimed_by_new_graphs (id reuse observed, uninstrumented)": reuse_signs,
